@@ -220,6 +220,18 @@ func (r *rewriter) pre(c *astutil.Cursor) bool {
 		if _, ok := c.Parent().(*ast.LabeledStmt); ok {
 			die("%s: labelled select statement is not supported", r.fset.Position(n.Pos()))
 		}
+	case *ast.TypeSpec:
+		if st, ok := n.Type.(*ast.StructType); ok && r.pkg.PkgPath == modPath+"/widgets/term" && n.Name.Name == "Model" {
+			for _, f := range st.Fields.List {
+				for _, nm := range f.Names {
+					if nm.Name == "pty" {
+						f.Type = &ast.SelectorExpr{X: ast.NewIdent("simrt"), Sel: ast.NewIdent("PTY")}
+						r.changed = true
+						counts["pty"]++
+					}
+				}
+			}
+		}
 	case *ast.FuncDecl:
 		if n.Body != nil && n.Recv != nil || n.Body != nil {
 			if fp := failpoints[r.pkg.PkgPath]; fp != nil {
@@ -521,6 +533,14 @@ func (r *rewriter) rewriteCall(c *astutil.Cursor, n *ast.CallExpr) {
 				c.Replace(simCall("SignalStop", n.Args...))
 				r.changed = true
 				counts["signal"]++
+			case isPkgFunc(o, "github.com/creack/pty", "StartWithAttrs"):
+				c.Replace(simCall("PTYStart", n.Args...))
+				r.changed = true
+				counts["pty"]++
+			case isPkgFunc(o, "github.com/creack/pty", "Setsize"):
+				c.Replace(simCall("PTYSetsize", n.Args...))
+				r.changed = true
+				counts["pty"]++
 			case isPkgFunc(o, "os", "Getenv"):
 				c.Replace(simCall("Getenv", n.Args...))
 				r.changed = true
